@@ -161,13 +161,16 @@ SHEETS = ['Sheet1', 'S2', 'Data']
 NUMS = [0, 1, 2, 3, 7, -4, 10, 100, 0.5, 2.25, -1.5, 1e-7, 12345.678, 800,
         2.5, 0.125, -4.5,
         0.30000000000000004, 1 / 3, 1.0, 2.0]
-EXTREME = [1e308, -0.0, 5e-324, 2 ** 70, -1e308]
+EXTREME = [1e308, -0.0, 5e-324, 2 ** 70, -1e308, 2 ** 53 + 1, float('inf'),
+           float('-inf'), float('nan')]
 TEXTS = ['abc', 'Hello', 'x', 'héllo wörld', '12', '3.5', 'TRUE',
-         'a"b', "it's", '日本', 'long ' * 70, '0', '1e3', ' 7 ', 'False', 'ABC', 'Abc', 'HELLO', '#N/A', '#DIV/0!', '#VALUE!']
+         'a"b', "it's", '日本', 'long ' * 70, '0', '1e3', ' 7 ', 'False', 'ABC', 'Abc', 'HELLO', '#N/A', '#DIV/0!', '#VALUE!',
+         'line1\nline2', '\U0001F600 wide', 'A1', 'Sheet1!A1', 'tab\there']
 DATES = [datetime.datetime(2020, 3, 15), datetime.datetime(1999, 12, 31, 12),
          datetime.datetime(1900, 3, 1),
          datetime.datetime(2021, 5, 17, 13, 45, 12, 345678),
-         datetime.datetime(2038, 1, 19, 3, 14, 7, 1)]
+         datetime.datetime(2038, 1, 19, 3, 14, 7, 1),
+         datetime.datetime(1900, 1, 15), datetime.datetime(1899, 12, 31, 6)]
 
 # templates: {a} {b} {c} single-cell operands, {R} a range, {n} a defined name
 T_SCALAR = [
@@ -265,7 +268,7 @@ def gen_world(rng, n_inputs=None, n_formulas=None, sheets=None, names=True,
         r = rng.random()
         if r < 0.50:
             return rng.choice(NUMS)
-        if r < 0.56 and extremes:
+        if r < 0.56 and (extremes or rng.random() < 0.15):
             return rng.choice(EXTREME)
         if r < 0.72:
             return rng.choice(TEXTS)
@@ -284,6 +287,9 @@ def gen_world(rng, n_inputs=None, n_formulas=None, sheets=None, names=True,
     if n_inputs is None and n_formulas is None and rng.random() < 0.04:
         # now and then a larger model (size-triggered behaviour)
         ni, nf = rng.randint(10, 40), rng.randint(10, 45)
+    elif n_inputs is None and n_formulas is None and rng.random() < 0.03:
+        # ... or a minimal one
+        ni, nf = 1, rng.choice([0, 1])
     for _ in range(ni):
         a = place(rng.choice(sheet_list))
         cells[a] = enc(const())
